@@ -168,21 +168,28 @@ ExprProds == [
 (* B.3.2 Statements *)
 StmtProds == [
   stmts1  |-> { Pr("", 0, <<Nil, N("stmt"), S, T(";"), N("stmts_r")>>) },
-  stmts_r |-> { Eps, Pr("stmt:more", 1, <<N("stmt"), S, T(";"), N("stmts_r")>>) },
+  stmts_r |-> { Eps, Pr("stmt:more", 1, <<N("stmt"), S, T(";"), N("stmts_r")>>),
+                \* "dg:" = accepted by the parser although it is not a sentence of IEC 61131-3 (2nd ed.): outside C01 ("well-formed
+                \* source text"), inside C10 ("every source the parser accepts"), C04, C05 and C08
+                Pr("dg:emptystmt", 1, <<T(";"), N("stmts_r")>>) },
+  \* a statement list that may also be a single empty statement (bodies of control structures and functions)
+  stmts1e |-> { Pr("", 0, <<N("stmts1")>>), Pr("dg:onlyempty", 1, <<Nil, T(";")>>) },
+  \* ... or nothing at all (THEN branch)
+  stmts1n |-> { Pr("", 0, <<N("stmts1e")>>), Pr("dg:nothing", 1, <<Nil>>) },
   stmt    |-> { Pr("stmt:assign", 0, <<N("variable"), T(":="), N("expr"), R("Assign", 2)>>),
                 Pr("stmt:fbcall", 1, <<ID, T("("), N("params"), T(")"), R("FbCall", 2)>>),
                 Pr("stmt:return", 1, <<T("RETURN"), R("Return", 0)>>),
                 Pr("stmt:exit", 1, <<T("EXIT"), R("Exit", 0)>>),
-                Pr("stmt:if", 1, <<T("IF"), N("expr"), T("THEN"), N("stmts1"), Nil, N("elsifs"), N("else_opt"), T("END_IF"), R("If", 4)>>),
+                Pr("stmt:if", 1, <<T("IF"), N("expr"), T("THEN"), N("stmts1n"), Nil, N("elsifs"), N("else_opt"), T("END_IF"), R("If", 4)>>),
                 Pr("stmt:case", 1, <<T("CASE"), N("expr"), T("OF"), Nil, N("case_el"), S, N("case_els"), N("else_opt"), T("END_CASE"), R("Case", 3)>>),
-                Pr("stmt:for", 1, <<T("FOR"), ID, T(":="), N("expr"), T("TO"), N("expr"), N("by_opt"), T("DO"), N("stmts1"), T("END_FOR"), R("For", 5)>>),
-                Pr("stmt:while", 1, <<T("WHILE"), N("expr"), T("DO"), N("stmts1"), T("END_WHILE"), R("While", 2)>>),
-                Pr("stmt:repeat", 1, <<T("REPEAT"), N("stmts1"), T("UNTIL"), N("expr"), T("END_REPEAT"), R("Repeat", 2)>>) },
-  elsifs   |-> { Eps, Pr("if:elsif", 1, <<T("ELSIF"), N("expr"), T("THEN"), N("stmts1"), R("Elsif", 2), S, N("elsifs")>>) },
-  else_opt |-> { Pr("", 0, <<Nil>>), Pr("else", 1, <<T("ELSE"), N("stmts1")>>) },
+                Pr("stmt:for", 1, <<T("FOR"), ID, T(":="), N("expr"), T("TO"), N("expr"), N("by_opt"), T("DO"), N("stmts1e"), T("END_FOR"), R("For", 5)>>),
+                Pr("stmt:while", 1, <<T("WHILE"), N("expr"), T("DO"), N("stmts1e"), T("END_WHILE"), R("While", 2)>>),
+                Pr("stmt:repeat", 1, <<T("REPEAT"), N("stmts1e"), T("UNTIL"), N("expr"), T("END_REPEAT"), R("Repeat", 2)>>) },
+  elsifs   |-> { Eps, Pr("if:elsif", 1, <<T("ELSIF"), N("expr"), T("THEN"), N("stmts1e"), R("Elsif", 2), S, N("elsifs")>>) },
+  else_opt |-> { Pr("", 0, <<Nil>>), Pr("else", 1, <<T("ELSE"), N("stmts1e")>>) },
   by_opt   |-> { Pr("", 0, <<None>>), Pr("for:by", 1, <<T("BY"), N("expr")>>) },
   case_els |-> { Eps, Pr("case:more", 1, <<N("case_el"), S, N("case_els")>>) },
-  case_el  |-> { Pr("", 0, <<Nil, N("case_sel"), S, N("case_sels"), T(":"), N("stmts1"), R("CaseEl", 2)>>) },
+  case_el  |-> { Pr("", 0, <<Nil, N("case_sel"), S, N("case_sels"), T(":"), N("stmts1e"), R("CaseEl", 2)>>) },
   case_sels |-> { Eps, Pr("case:sel2", 1, <<T(","), N("case_sel"), S, N("case_sels")>>) },
   case_sel |-> { Pr("case:int", 0, <<L("pint")>>),
                  Pr("case:negint", 1, <<L("nint")>>),
@@ -332,7 +339,7 @@ PouProds == [
   pou_body   |-> { Pr("body:empty", 0, <<Nil>>), Pr("body:stmts", 0, <<N("stmts1")>>), Pr("body:sfc", 1, <<N("sfc_body")>>) },
   fb      |-> { Pr("pou:fb", 0, <<T("FUNCTION_BLOCK"), ID, Nil, N("fb_blocks"), N("pou_body"), T("END_FUNCTION_BLOCK"), R("FB", 3)>>) },
   prog    |-> { Pr("pou:program", 0, <<T("PROGRAM"), ID, Nil, N("pg_blocks"), N("pou_body"), T("END_PROGRAM"), R("Prog", 3)>>) },
-  func    |-> { Pr("pou:function", 0, <<T("FUNCTION"), ID, T(":"), N("typename"), Nil, N("fn_blocks"), N("stmts1"), T("END_FUNCTION"), R("Func", 4)>>) }
+  func    |-> { Pr("pou:function", 0, <<T("FUNCTION"), ID, T(":"), N("typename"), Nil, N("fn_blocks"), N("stmts1e"), T("END_FUNCTION"), R("Func", 4)>>) }
 ]
 
 
@@ -353,7 +360,10 @@ SfcProds == [
                    Pr("aq:D", 1, <<T("D"), PV("D"), T(","), N("atime"), R("QT", 2)>>),
                    Pr("aq:SD", 1, <<T("SD"), PV("SD"), T(","), N("atime"), R("QT", 2)>>),
                    Pr("aq:DS", 1, <<T("DS"), PV("DS"), T(","), N("atime"), R("QT", 2)>>),
-                   Pr("aq:SL", 1, <<T("SL"), PV("SL"), T(","), N("atime"), R("QT", 2)>>) },
+                   Pr("aq:SL", 1, <<T("SL"), PV("SL"), T(","), N("atime"), R("QT", 2)>>),
+                   \* the parser reads P1 / P0 with a time (the standard has them without)
+                   Pr("dg:aq:P1", 1, <<T("P1"), PV("P1"), T(","), N("atime"), R("QT", 2)>>),
+                   Pr("dg:aq:P0", 1, <<T("P0"), PV("P0"), T(","), N("atime"), R("QT", 2)>>) },
   atime      |-> { Pr("", 0, <<L("dur")>>), Pr("aq:timevar", 1, <<ID, R("TimeVar", 1)>>) },
   indicators |-> { Eps, Pr("sfc:indicator", 1, <<T(","), ID, S, N("indicators")>>) },
   sfc_elems  |-> { Eps, Pr("sfc:elem", 1, <<N("sfc_elem"), S, N("sfc_elems")>>) },
